@@ -11,8 +11,11 @@ literal is `2*input + (1 if negated)`.  Valuations are bit masks over the inputs
                     the decision chain selects under valuation `m` when `m` satisfies exactly one
                     alternative, `-1` otherwise) | `err` | `panic`
   `exact <alts>`  → `ok lit:target,… default` | `err <kind>` | `panic`   (literal result of the mirror)
-  `judge <go answer> :: rule <alts>` → `holds` | `violates: …`  (brute-force specification,
-                    independent of the mirror)
+  `chain <alts> <m>` → `<target>` the mirror's decision chain selects under valuation `m` | `err` | `panic`
+                    (Go side: the alternative a GENERATED parser reduced on an input whose predicate
+                    outcomes are `m`; only valuations satisfying exactly one alternative are sent)
+  `judge <go answer> :: rule <alts>` / `judge <go answer> :: chain <alts> <m>` → `holds` | `violates: …`
+                    (brute-force specification, independent of the mirror)
 -/
 namespace TmVerif.DriverC08
 open TmVerif.Proto TmVerif.Lookahead
@@ -94,6 +97,23 @@ def judgeTable (las : List Alt) (tab : List Int) : Option String :=
     | a :: b :: _ => some s!"accepted although valuation {m} satisfies two alternatives (targets {a.target} and {b.target})"
     | [] => none
 
+def handleJudgeRule (args : List String) : Option String :=
+  match args with
+  | ["ok", tab, "::", "rule", s] => do
+    let las ← parseAlts s
+    let tab ← parseInts tab
+    match judgeTable las tab with
+    | some why => some s!"violates: {why}"
+    | none =>
+      match judgeOrder las with
+      | some why => some s!"violates: {why}"
+      | none => some "holds"
+  | ["err", "::", "rule", _] => some "holds"
+  | ["panic", "::", "rule", s] => do
+    let las ← parseAlts s
+    if las.isEmpty then some "holds" else some "violates: the implementation panicked"
+  | _ => none
+
 def handle (args : List String) : Option String :=
   match args with
   | ["rule", s] => do
@@ -108,19 +128,24 @@ def handle (args : List String) : Option String :=
     | .ok r => some (showExact r)
     | .error .panic => some "panic"
     | .error e => some s!"err {errName e}"
-  | ["judge", "ok", tab, "::", "rule", s] => do
+  | ["chain", s, m] => do
     let las ← parseAlts s
-    let tab ← parseInts tab
-    match judgeTable las tab with
-    | some why => some s!"violates: {why}"
-    | none =>
-      match judgeOrder las with
-      | some why => some s!"violates: {why}"
-      | none => some "holds"
-  | ["judge", "err", "::", "rule", _] => some "holds"
-  | ["judge", "panic", "::", "rule", s] => do
-    let las ← parseAlts s
-    if las.isEmpty then some "holds" else some "violates: the implementation panicked"
+    let m ← parseNat? m
+    match newLookaheadRule las with
+    | .ok r => some (toString (evalRule r.cases r.default (valuation m)))
+    | .error .panic => some "panic"
+    | .error _ => some "err"
+  | "judge" :: rest =>
+    match rest.reverse with
+    | m :: s :: "chain" :: "::" :: ans => do
+      let las ← parseAlts s
+      let m ← parseNat? m
+      match satisfied las m with
+      | [la] =>
+        if ans.reverse == [toString la.target] then some "holds"
+        else some s!"violates: valuation {m} satisfies only the alternative with target {la.target} but the generated parser answered {" ".intercalate ans.reverse}"
+      | _ => some "holds"
+    | _ => handleJudgeRule rest
   | _ => none
 
 end TmVerif.DriverC08
